@@ -200,7 +200,7 @@ def transl2(x, y=None):
     elif base.ismatrix(x, (3, 3)):
         return x[:2, 2]
     else:
-        ValueError('bad argument')
+        raise ValueError('bad argument')
 
 
 def ishom2(T, check=False):
